@@ -627,3 +627,10 @@ T("L35", "C08", HN, "    elif len(a) == min_signatures - 1:\n      if flags & Se
 # ---------------------------------------------------------------------------------- C12 cusum extrema, semantic version
 F("L41", "C12", NS, "    maxs = max(0, max(total_cnt, default=0))", "    maxs = max(total_cnt, default=0)", "R-C12-CUSUM", "fall-back maximum no longer clamped with S_0 = 0 (defect before 0d3e4df)")
 F("L42", "C12", NS, "      if s > maxs:\n        maxs = s", "      if s != maxs:\n        maxs = s", "R-C12-CUSUM", "maximum overwritten by any different state")
+
+# ---------------------------------------------------------------------------------- C01 CheckGCD properness (after fix 92289d6)
+RA = L + "rsa_aggregate_checks.py"
+F("L50", "C01", RA, "          if proper is not None:\n            factors = factors + [proper, vals[i] // proper]\n", "", "R-C01-PROPER", "CheckGCD: proper factor no longer added when gcd == n (defect before 92289d6)")
+F("L51", "C01", RA, "            if 1 < g < vals[i]:\n              proper = g", "            if 1 < g <= vals[i]:\n              proper = g", "R-C01-PROPER", "CheckGCD: the added factor may be the modulus itself")
+F("L52", "C01", RA, "            factors = factors + [proper, vals[i] // proper]", "            factors = factors + [proper + 1, vals[i] // proper]", "R-C01-SINK", "CheckGCD: added value does not divide the modulus")
+T("L53", "C03", RA, "          if proper is not None:\n            factors = factors + [proper, vals[i] // proper]\n", "          if proper is not None:\n            factors = factors + [vals[i] // proper, proper]\n", "C03: the batch gcd stays the first recorded value whatever follows")
